@@ -22,6 +22,7 @@
 #include <unistd.h>
 #include <inttypes.h>
 #include <algorithm>
+#include <exception>
 #include <tbox/base/log.h>
 #include <tbox/base/assert.h>
 #include <tbox/base/wrapped_recorder.h>
@@ -30,6 +31,21 @@ namespace tbox {
 namespace event {
 
 using namespace std::chrono;
+
+namespace {
+//! 执行延后任务。任务抛出的异常在此被捕获，否则同一批中剩余的任务会被丢弃
+//! (不使用 base 的 CatchThrow()，避免给 event 模块引入新的链接依赖)
+void InvokeFunc(const Loop::Func &func)
+{
+    try {
+        func();
+    } catch (const std::exception &e) {
+        LogErr("catch exception in deferred task: %s", e.what());
+    } catch (...) {
+        LogErr("catch unknown exception in deferred task");
+    }
+}
+}
 
 CommonLoop::RunFuncItem::RunFuncItem(RunId i, Func &&f, const std::string &w)
     : id(i)
@@ -184,7 +200,7 @@ void CommonLoop::handleNextFunc()
         if (item.func) {
             RECORD_SCOPE();
             ++cb_level_;
-            item.func();
+            InvokeFunc(item.func);
             --cb_level_;
         }
 
@@ -223,7 +239,7 @@ void CommonLoop::handleRunInLoopFunc()
         if (item.func) {
             RECORD_SCOPE();
             ++cb_level_;
-            item.func();
+            InvokeFunc(item.func);
             --cb_level_;
         }
 
@@ -248,7 +264,7 @@ void CommonLoop::cleanupDeferredTasks()
             if (item.func) {
                 RECORD_SCOPE();
                 ++cb_level_;
-                item.func();
+                InvokeFunc(item.func);
                 --cb_level_;
             }
             run_next_tasks.pop_front();
@@ -259,7 +275,7 @@ void CommonLoop::cleanupDeferredTasks()
             if (item.func) {
                 RECORD_SCOPE();
                 ++cb_level_;
-                item.func();
+                InvokeFunc(item.func);
                 --cb_level_;
             }
             run_in_loop_tasks.pop_front();
